@@ -37,6 +37,8 @@ Outcomes(a) ==
     CASE a.kind = "auth" -> {"ok", "absent", "nontext", "badprefix", "badtoken", "nodelim"}
       [] a.kind = "body" -> {"ok", "malformed", "wrongctype", "noctype"}
       [] a.kind = "path" -> {"ok"} \cup (IF a.typed THEN {"unparsable"} ELSE {})
+      (* a path parameter behind a regex segment: a raw request can put several segments there ("multi") *)
+      [] a.kind = "rpath" -> {"ok", "multi"} \cup (IF a.typed THEN {"unparsable"} ELSE {})
       [] a.kind = "query" /\ a.card = "one" -> {"ok", "absent", "repeated"} \cup (IF a.typed THEN {"unparsable"} ELSE {})
       [] a.kind = "query" /\ a.card = "opt" -> {"ok", "absent", "repeated"} \cup (IF a.typed THEN {"unparsable"} ELSE {})
       [] a.kind = "query" /\ a.card = "many" -> {"ok", "absent", "repeated"} \cup (IF a.typed THEN {"unparsable"} ELSE {})
@@ -64,8 +66,8 @@ Site(a, o) ==
           msg |-> IF o \in {"wrongctype", "noctype"} THEN "const" ELSE "input",    \* deserialize: service(serde error)
           param |-> a.name]
     ELSE [fails |-> TRUE, code |-> "INVALID_ARGUMENT",
-          ctor |-> IF o \in {"absent", "repeated"} THEN "safe" ELSE "unsafe",      \* only_item/optional_item: service_safe(const)
-          msg |-> IF o \in {"absent", "repeated"} THEN "const" ELSE "input",       \* parse / to_str: service(error)
+          ctor |-> IF o \in {"absent", "repeated", "multi"} THEN "safe" ELSE "unsafe",      \* only_item/optional_item: service_safe(const)
+          msg |-> IF o \in {"absent", "repeated", "multi"} THEN "const" ELSE "input",       \* parse / to_str: service(error)
           param |-> a.name]
 
 FirstFailure(out) == IF \E i \in 1..N : Fails(Args[i], out[i])
@@ -87,7 +89,7 @@ CodeOk(out) == AnyFails(out) =>
     LET f == FirstFailure(out) e == MechError(out) IN
     e.fails /\ e.code = (IF Args[f].kind = "auth" THEN "PERMISSION_DENIED" ELSE "INVALID_ARGUMENT")
 ParamIsDeclaredName(out) == AnyFails(out) =>
-    LET f == FirstFailure(out) IN Args[f].kind \in {"path", "query", "header"} => MechError(out).param = Args[f].name
+    LET f == FirstFailure(out) IN Args[f].kind \in {"path", "rpath", "query", "header"} => MechError(out).param = Args[f].name
 (* taint: a safe cause must not be built from input; the safe parameter set holds only safe, decoded, non-auth arguments *)
 NoLeak(out) == /\ (MechError(out).fails /\ MechError(out).ctor = "safe" => MechError(out).msg = "const")
                /\ \A n \in MechSafeParams(out) : \E i \in Decoded(out) : Args[i].name = n /\ Args[i].safe /\ Args[i].kind # "auth"
